@@ -19,14 +19,17 @@ TEMPLATES = [("SELECT '$' FROM t", "lit1"), ("SELECT a FROM t WHERE b = '$' AND 
              ("SELECT \"$\" FROM t", "lit2"), ("INSERT INTO t VALUES ('$', 2)", "lit1"), ("UPDATE t SET a = '$' WHERE b LIKE 'x'", "lit1"),
              ("SELECT a FROM t WHERE b IN ('x', '$')", "lit1"), ("SELECT CASE WHEN a = '$' THEN 1 END FROM t", "lit1"),
              ("SELECT `$` FROM t", "name"), ("SELECT a AS `$` FROM t", "name"), ("SELECT t.`$` FROM t", "name"), ("SELECT a FROM t AS `$`", "name"),
-             ("SELECT a /* $ */ FROM t", "c2"), ("SELECT a -- $\n FROM t", "c1"), ("SELECT a # $\nFROM t", "c1"), ("SELECT /*$*/ a, b FROM t -- $\n", "c2"),
+             ("SELECT a /* $ */ FROM t", "c2"), ("SELECT a -- $\n FROM t", "c1"), ("SELECT a # $\nFROM t", "c1"), ("SELECT /*$*/ a, b FROM t -- tail\n", "c2"), ("SELECT /*x*/ a, b FROM t -- $\n", "c1"),
              ("CREATE TABLE t (a INT COMMENT '$') COMMENT='$'", "lit1"), ("SELECT a FROM t; SELECT '$'; SELECT b FROM u", "lit1"),
              ("SELECT (a + ('$')) FROM (SELECT '$' AS x FROM t) y", "lit1"),
              ("SELECT a /** $ **/, b FROM t /* tail */", "c2"), ("SELECT a /*$**/, b FROM t /* tail */", "c2"), ("SELECT a /***$***/ FROM t /* x */", "c2"),
+             ("SELECT a `$` FROM t", "name"), ("SELECT a FROM t `$`", "name"), ("SELECT a FROM t `$` JOIN u ON 1 = 1", "name"), ("SELECT a FROM (SELECT a FROM t) `$` WHERE a = 1", "name"),
+             ("SELECT CASE a WHEN '$' THEN '$' ELSE '$' END FROM t", "lit1"), ("SELECT CASE WHEN a = 1 THEN '$' ELSE '$' END, f(a, '$') FROM t GROUP BY '$' ORDER BY '$'", "lit1"),
              ("SELECT \"$\" AS x, b FROM t WHERE c = \"$\" AND d = 'tail'", "lit2"), ("SELECT a FROM t WHERE b = '$' AND c = \"q\" AND d = 'tail'", "lit1")]
 ATOMS = ["SELECT", "FROM", " ", ";", "(", ")", "[", "]", ",", "--", "/*", "#", "+", "<=>", "||", "&&", "!", "=", "a", "B", "0", "1.5", "0x1F", "NULL", "名", "é", "#{p}", "}",
-         "{", ".", "%", "^", "~", "|", "&", "<", ">", "@", "$", "?", ":", "x'", "UNION", "WHERE 1=1", "*"]
-FORBIDDEN = {"lit1": ["'", "\\"], "lit2": ['"', "\\"], "name": ["`", "."], "c1": ["\n"], "c2": ["*/", "*"]}
+         "{", ".", "%", "^", "~", "|", "&", "<", ">", "@", "$", "?", ":", "x'", "UNION", "WHERE 1=1", "*",
+         "\n", "CROSS", "sort", "USING", "Cluster", "DISTRIBUTE", "JOIN", "AS", "ON", "LIMIT", "ORDER", "GROUP", "BY", "WITH", "END", "\n    "]
+FORBIDDEN = {"lit1": ["'", "\\"], "lit2": ['"', "\\"], "name": ["`", ".", "\n"], "c1": ["\n"], "c2": ["*/", "*"]}
 
 
 # escapes are part of the quoted text: a backslash pair and a doubled delimiter stay inside the literal
@@ -42,7 +45,7 @@ def payload(rng, kind, dialect):
             for _ in range(rng.choice([1, 1, 2])):
                 atoms.insert(rng.randrange(len(atoms) + 1), rng.choice(ESCAPES[kind]))
         p = "".join(atoms)
-        if kind == "name" and (p.strip() != p or p == ""):
+        if kind == "name" and (p.strip() != p or p == "" or p.lower() in ("a", "b", "c", "d", "t", "u", "x", "y", "f")):
             continue                                   # a name is compared after the enclosing back-quotes are stripped
         if dialect == "HIVE" and "==" in p:
             continue                                   # K-PREPASS-QUOTE
